@@ -253,3 +253,139 @@ theorem trace_plain (ops : List Op) : ∀ (s : St), Plain s.char → ∀ so ∈ 
     · exact ih _ hs.2 so hso
 
 end Hc.Charac
+
+-- every stored value is an output of convert + clamp (F53) ----------------------------------------------------------
+namespace Hc.Charac
+
+/-- `v` is what the characteristic was constructed with (nothing) or what `convertClamp` made of some supplied value -/
+def Produced (cfg : Config) (v : GVal) : Prop := v = (init cfg).value ∨ ∃ w, convertClamp cfg w = some (some v)
+
+structure InvP (cfg : Config) (c : Chr) : Prop where
+  cfg_eq : c.cfg = cfg
+  val : Produced cfg c.value
+
+theorem commit_val (c : Chr) (v2 : GVal) (fc cp : Bool) :
+    (commit c v2 fc cp).1.cfg = c.cfg ∧ ((commit c v2 fc cp).1.value = c.value ∨ (commit c v2 fc cp).1.value = v2) := by
+  unfold commit
+  split
+  · simp
+  · split
+    · simp
+    · split
+      · simp
+      · cases c.cfg.perms.pr <;> simp
+
+theorem updateValue_invP (cfg : Config) (c : Chr) (h : InvP cfg c) (v : GVal) (fc cp : Bool) :
+    InvP cfg (updateValue c v fc cp).1 := by
+  obtain ⟨rfl, hv⟩ := h
+  unfold updateValue
+  cases hc : convertClamp c.cfg v with
+  | none => exact ⟨rfl, hv⟩
+  | some o =>
+    cases o with
+    | none => exact ⟨rfl, hv⟩
+    | some v2 =>
+      have := commit_val c v2 fc cp
+      refine ⟨this.1, ?_⟩
+      rcases this.2 with h1 | h1
+      · simp only [h1]; exact hv
+      · simp only [h1]; exact Or.inr ⟨v, hc⟩
+
+theorem getValue_invP (cfg : Config) (c : Chr) (h : InvP cfg c) (fc : Bool) (gf : Option GVal) :
+    InvP cfg (getValue c fc gf).1 := by
+  cases gf with
+  | none => exact h
+  | some v =>
+    have := updateValue_invP cfg c h v fc false
+    unfold getValue
+    cases ho : (updateValue c v fc false).2 <;> simp_all
+
+theorem putEntry_invP (cfg : Config) (s : St) (h : InvP cfg s.char) (e : PutEntry) :
+    InvP cfg (putEntry s e).1.char := by
+  unfold putEntry
+  by_cases hn : JVal.isNull e.value = true
+  · simp only [hn, if_true]
+    split <;> (try split) <;> (try split) <;> exact h
+  · have := updateValue_invP cfg s.char h (ofJson e.value) true true
+    simp only [hn]
+    cases ho : (updateValue s.char (ofJson e.value) true true).2
+    · simp only [Bool.false_eq_true, if_false, ho]
+      split <;> (try split) <;> (try split) <;> exact this
+    · simp only [Bool.false_eq_true, if_false, ho]
+      exact this
+
+theorem putEntries_invP (cfg : Config) (es : List PutEntry) : ∀ (s : St) (acc : List Int), InvP cfg s.char →
+    InvP cfg (putEntries s es acc).1.char := by
+  induction es with
+  | nil => intro s acc h; exact h
+  | cons e es ih =>
+    intro s acc h
+    have he := putEntry_invP cfg s h e
+    unfold putEntries
+    rcases hp : putEntry s e with ⟨s1, o, st⟩
+    rw [hp] at he
+    cases o with
+    | panic => exact he
+    | ok => exact ih s1 _ he
+
+theorem step_invP (cfg : Config) (s : St) (h : InvP cfg s.char) (o : Op) : InvP cfg (step s o).1.char := by
+  cases o with
+  | update v fc cp => exact updateValue_invP cfg s.char h v fc cp
+  | get fc gf => exact getValue_invP cfg s.char h fc gf
+  | put es => exact putEntries_invP cfg es s [] h
+
+theorem trace_invP (cfg : Config) (ops : List Op) : ∀ (s : St), InvP cfg s.char →
+    ∀ so ∈ trace s ops, InvP cfg so.1.char := by
+  induction ops with
+  | nil => intro s _ so hso; simp [trace] at hso
+  | cons o os ih =>
+    intro s h so hso
+    have hs := step_invP cfg s h o
+    simp only [trace, List.mem_cons] at hso
+    rcases hso with rfl | hso
+    · exact hs
+    · exact ih _ hs so hso
+
+theorem start_invP (cfg : Config) : InvP cfg (start cfg).char := ⟨rfl, Or.inl rfl⟩
+
+/-- within the range of the format (integer formats; everything else has no such range) -/
+def inFormat (cfg : Config) : GVal → Bool
+  | .int i => match cfg.format.range with
+    | some (lo, hi) => decide (lo ≤ i) && decide (i ≤ hi)
+    | none => true
+  | _ => true
+
+/-- declared integer bounds lie within the range of the format themselves -/
+def boundsInFormat (cfg : Config) : Bool :=
+  match cfg.format.range with
+  | some (lo, hi) =>
+    (match cfg.min with | .int mn => decide (lo ≤ mn) && decide (mn ≤ hi) | _ => true) &&
+    (match cfg.max with | .int mx => decide (lo ≤ mx) && decide (mx ≤ hi) | _ => true)
+  | none => true
+
+theorem satI_range (lo hi i : Int) (h : lo ≤ hi) : lo ≤ satI lo hi i ∧ satI lo hi i ≤ hi := by
+  unfold satI; split <;> (try split) <;> omega
+
+theorem truncSat_range (lo hi : Int) (h : lo ≤ hi) (x : F64) : lo ≤ x.truncSat lo hi ∧ x.truncSat lo hi ≤ hi := by
+  cases x with
+  | nan => simp only [F64.truncSat]; split <;> (try split) <;> omega
+  | inf n => cases n <;> simp [F64.truncSat] <;> omega
+  | fin n m e => simp only [F64.truncSat]; split <;> (try split) <;> omega
+
+theorem toIntSat_range (lo hi : Int) (h : lo ≤ hi) (v : GVal) : lo ≤ toIntSat lo hi v ∧ toIntSat lo hi v ≤ hi := by
+  cases v <;> first | exact truncSat_range lo hi h _ | exact satI_range lo hi _ h
+
+theorem clampInt_between (cfg : Config) (lo hi i : Int) (hi1 : lo ≤ i) (hi2 : i ≤ hi)
+    (hmn : ∀ mn, cfg.min = .int mn → lo ≤ mn ∧ mn ≤ hi) (hmx : ∀ mx, cfg.max = .int mx → lo ≤ mx ∧ mx ≤ hi) :
+    lo ≤ clampInt cfg i ∧ clampInt cfg i ≤ hi := by
+  unfold clampInt
+  cases h1 : cfg.max <;> cases h2 : cfg.min <;> simp only [] <;>
+    (try (have := hmn _ h2)) <;> (try (have := hmx _ h1)) <;> (try split) <;> (try split) <;> omega
+
+theorem clampSat_range (cfg : Config) (lo hi : Int) (h : lo ≤ hi) (w : GVal)
+    (hmn : ∀ mn, cfg.min = .int mn → lo ≤ mn ∧ mn ≤ hi) (hmx : ∀ mx, cfg.max = .int mx → lo ≤ mx ∧ mx ≤ hi) :
+    lo ≤ clampInt cfg (toIntSat lo hi w) ∧ clampInt cfg (toIntSat lo hi w) ≤ hi :=
+  have hr := toIntSat_range lo hi h w
+  clampInt_between cfg lo hi _ hr.1 hr.2 hmn hmx
+
+end Hc.Charac
